@@ -26,7 +26,7 @@ func runOverflow(c *h.Ctx, r *h.Report) {
 	r.Rule = "histories around the buffer capacity (1000) through the real handlers under synctest: a subscriber whose writer is stalled while capacity-1 … capacity+3 matching updates are published (overflow during live delivery at exactly capacity+1 pending: 1 in flight + capacity buffered), then released; other subscribers reading normally; on Bolt, replays from 'earliest' and from a stored id larger / smaller than the buffer (overflow during history replay); subscriptions API listing afterwards. Full observable state compared with the model after every op; the property's oracle (a subscriber that missed an update is ended and no longer listed, the others got everything) evaluated on the implementation alone. Non-trivial = case in which some buffer overflowed; distinct by content."
 	o := gen.NewOracle()
 	g := installCountingUUID()
-	n := c.Scale(12, 400)
+	n := c.Scale(20, 400)
 	for i := 0; i < n; i++ {
 		cs := genOverflowCase(c.Rand.Fork(), 1000)
 		runHubCase(c, r, o, cs, g)
@@ -55,6 +55,15 @@ func mkPool(rr *h.Rand, o *gen.Oracle) hubPool {
 		l := "https://example.com/" + gen.Literal(rr, false)
 		p.topics = append(p.topics, l)
 		p.sels = append(p.sels, l)
+	}
+	// the commonest template shape — a literal and one trailing variable — with topics that share the literal
+	// prefix but whose remainder is not an expansion of the variable (reserved characters, space, non-ASCII,
+	// one more path segment): claims made of such a template must not open those topics
+	base := "https://example.com/" + gen.Literal(rr, false)
+	p.sels = append(p.sels, base+"/{id}")
+	p.topics = append(p.topics, base+"/1", base+"/1"+h.Pick(rr, []string{"?fields=price", "#reviews", ":x", " y", "é", "/deeper", "%zz"}))
+	if len(p.sels) > 0 && strings.Contains(p.sels[0], "{") {
+		p.topics = append(p.topics, gen.Expand(rr, tplOf(p.sels[0]))+h.Pick(rr, []string{"?q", "#f", " ", "é", "/"}))
 	}
 	p.sels = append(p.sels, "*", "https://example.com/none", "a b")
 	p.topics = append(p.topics, "a b")
@@ -236,6 +245,9 @@ func genHubCase(rr *h.Rand, o *gen.Oracle, focus string) hubCase {
 				if rr.Chance(1, 6) && len(ids) > 0 {
 					op.INM = h.Pick(rr, ids)
 				}
+				if rr.Chance(1, 5) {
+					op.INM = "@last" // resolved when the op runs: the hub's current last event id
+				}
 				cs.Ops = append(cs.Ops, op)
 			}
 		}
@@ -263,7 +275,7 @@ func runHubGen(c *h.Ctx, r *h.Report, focus string) {
 
 		return
 	}
-	n := c.Scale(150, 5000)
+	n := c.Scale(300, 5000)
 	for i := 0; i < n; i++ {
 		cs := genHubCase(c.Rand.Fork(), o, focus)
 		runHubCase(c, r, o, cs, g)
@@ -340,7 +352,7 @@ func runHub(c *h.Ctx, r *h.Report) {
 	for _, cs := range hubCorpus() {
 		runHubCase(c, r, o, cs, g)
 	}
-	n := c.Scale(300, 8000)
+	n := c.Scale(500, 8000)
 	for i := 0; i < n; i++ {
 		cs := genHubCase(c.Rand.Fork(), o, "")
 		runHubCase(c, r, o, cs, g)
@@ -489,10 +501,15 @@ func hubOracles(hr *hubRun, cs hubCase, o *gen.Oracle) []h.Violation {
 				}
 			} else if strings.HasPrefix(e.Data, "{") && strings.Contains(e.Data, `"type": "Subscription"`) {
 				var d struct {
-					ID string `json:"id"`
+					ID         string `json:"id"`
+					Topic      string `json:"topic"`
+					Subscriber string `json:"subscriber"`
 				}
 				json.Unmarshal([]byte(e.Data), &d)
 				topics, private = []string{d.ID}, true
+				if want := subscriptionURL(d.Topic, d.Subscriber); d.ID != want {
+					add("C17:event-id-does-not-identify-its-subscription", fmt.Sprintf("subscription event for selector %q of subscriber %q has id %q; its subscription URL is %q", d.Topic, d.Subscriber, d.ID, want))
+				}
 				// C17: the event's topic/id is the percent-encoded subscription URL
 				if !pctSubscriptionID(d.ID) {
 					add("C17:event-id-not-percent-encoded", fmt.Sprintf("subscription event id %q is not a percent-encoded /.well-known/mercure/subscriptions/{topic}/{subscriber} URL", d.ID))
@@ -516,29 +533,51 @@ func hubOracles(hr *hubRun, cs hubCase, o *gen.Oracle) []h.Violation {
 			open++
 		}
 	}
-	// C12: one event per update, decoding to what was published, in order
+	// C12: one event per update, decoding to what was published (id, type, retry, data), in order — on the
+	// stream of the '*' subscriber connected from the start and, with the persistent transport, on the
+	// stream of a '*' subscriber that replays from 'earliest' after the last publication
 	if cs.ExactStream && len(hr.conns) > 0 {
 		var want []string
-		for _, op := range cs.Ops {
+		lastPub := -1
+		for i, op := range cs.Ops {
 			if op.Op == "pub" {
-				want = append(want, fmt.Sprintf("%s|%s|%s", op.Form.Get("id"), op.Form.Get("type"), normEOL(op.Form.Get("data"))))
+				retry := op.Form.Get("retry")
+				if retry == "0" {
+					retry = ""
+				}
+				want = append(want, fmt.Sprintf("%s|%s|%s|%s", op.Form.Get("id"), op.Form.Get("type"), retry, normEOL(op.Form.Get("data"))))
+				lastPub = i
 			}
 		}
-		var got []string
-		for _, e := range sseParse(hr.conns[0].w.Body()) {
-			got = append(got, fmt.Sprintf("%s|%s|%s", e.ID, e.Type, e.Data))
+		streams := map[int]string{hr.conns[0].label: "connected from the start"}
+		if cs.Cfg.Bolt && cs.Size == 0 {
+			for i, op := range cs.Ops {
+				if op.Op == "sub" && i > lastPub && op.LeidQ == "earliest" && len(op.Topics) == 1 && op.Topics[0] == "*" {
+					streams[op.Label] = "replaying from 'earliest'"
+				}
+			}
 		}
-		ok := len(got) == len(want)
-		for i := range want {
-			if ok && got[i] != want[i] && !(strings.HasPrefix(want[i], "|") && strings.HasPrefix(got[i], "urn:uuid:") && got[i][strings.IndexByte(got[i], '|'):] == want[i]) {
-				ok = false
-				add("C12:event-does-not-decode-to-what-was-published", fmt.Sprintf("event %d of the stream decodes to %q, the %d-th update published was %q", i, got[i], i, want[i]))
+		for _, lc := range hr.conns {
+			how, ok := streams[lc.label]
+			if !ok {
+				continue
+			}
+			var got []string
+			for _, e := range sseParse(lc.w.Body()) {
+				got = append(got, fmt.Sprintf("%s|%s|%s|%s", e.ID, e.Type, e.Retry, e.Data))
+			}
+			same := len(got) == len(want)
+			for i := range want {
+				if same && got[i] != want[i] && !(strings.HasPrefix(want[i], "|") && strings.HasPrefix(got[i], "urn:uuid:") && got[i][strings.IndexByte(got[i], '|'):] == want[i]) {
+					same = false
+					add("C12:event-does-not-decode-to-what-was-published", fmt.Sprintf("event %d on the stream of the '*' subscriber %s decodes to (id|type|retry|data) %q, the %d-th update published was %q", i, how, got[i], i, want[i]))
 
-				break
+					break
+				}
 			}
-		}
-		if len(got) != len(want) {
-			add("C12:not-one-event-per-update", fmt.Sprintf("%d updates published, %d events on the stream of a '*' subscriber connected from the start", len(want), len(got)))
+			if len(got) != len(want) {
+				add("C12:not-one-event-per-update", fmt.Sprintf("%d updates published, %d events on the stream of the '*' subscriber %s", len(want), len(got), how))
+			}
 		}
 	}
 	// C08: the Last-Event-ID response header is truthful (Bolt, '*' subscribers, public updates)
@@ -673,6 +712,8 @@ func hubOracles(hr *hubRun, cs hubCase, o *gen.Oracle) []h.Violation {
 		for _, s := range listed {
 			if !want[s.ID] {
 				add("C18:listed-subscriber-is-not-connected", fmt.Sprintf("subscriber %s (connection %s) is listed but its stream has ended", s.ID, hr.labelOf(s.ID)))
+				// C13: "cut off …, after which it is no longer listed as a subscriber"
+				add("C13:ended-subscriber-still-listed", fmt.Sprintf("the stream of subscriber %s (connection %s) has ended (handler returned) but the hub still lists it at quiescence", s.ID, hr.labelOf(s.ID)))
 			}
 			delete(want, s.ID)
 		}
@@ -682,6 +723,14 @@ func hubOracles(hr *hubRun, cs hubCase, o *gen.Oracle) []h.Violation {
 	}
 
 	return vs
+}
+
+// subscriptionURL: /.well-known/mercure/subscriptions/{topic}/{subscriber}, each segment percent-encoded
+// (the harness's own rendering of the documented template).
+func subscriptionURL(topic, subscriber string) string {
+	esc := func(s string) string { return strings.ReplaceAll(url.QueryEscape(s), "+", "%20") }
+
+	return "/.well-known/mercure/subscriptions/" + esc(topic) + "/" + esc(subscriber)
 }
 
 func pctSubscriptionID(id string) bool {
